@@ -99,6 +99,28 @@ CHECKS = {
             'run must execute nothing.',
             'Histories use the clean edit subset (see DESIGN 3/C04); '
             'SQLite files.', '3/C04'),
+    'C07': ('fault_enumeration',
+            'fault injection at every statement index of real upgrade runs '
+            '(execute_wrapper raising OperationalError), snapshot equality '
+            'pre/post failure, retry vs uninterrupted run',
+            'For every generated single-batch upgrade each of the N mutating '
+            'statements executed through SQLExecutor.run_sql during '
+            'Evolver.evolve() is made to fail in turn; error type, reported '
+            'statement, database state after the failure and after a retry '
+            'are checked.',
+            'SQLite; faults are injected exceptions, not process crashes; N '
+            'capped at 60 per upgrade.', '3/C07'),
+    'C17': ('fault_enumeration',
+            'offline trace checker over the interleaved signal / statement '
+            '/ transaction log of clean, no-op, fault-injected and retried '
+            'Evolver.evolve() runs',
+            'The recorded event log of every run is checked against the '
+            'signal specification (single evolving, truthful terminal '
+            'signal, pairing and payload, statement attribution, lock '
+            'release, labels recorded iff evolved).',
+            'Faults at every mutating statement of evolve() incl. '
+            'bookkeeping; statement attribution by generated table '
+            'ownership.', '3/C17'),
 }
 
 NOT_YET = 'check under construction (round 1)'
